@@ -39,3 +39,17 @@ Theorem C09_alap : forall (p : project) (x : task),
   forall u, u <> length (p_tasks p) -> alap_dates (extend p x) u = alap_dates p u.
 Proof. exact alap_lowest_priority_harmless. Qed.
 Print Assumptions C09_alap.
+
+(* ---- second granularity (Model/SubSlot.v: efforts, offsets and task ends inside a slot, limits counting bookings):
+   the same statement - appending a leaf of strictly lowest priority on which nothing depends and which lies in no
+   container leaves the dates of every other task unchanged *)
+Require Import SP.Model.SubSlot SP.Proofs.SubSlotPrio.
+Theorem C09_subslot : forall (p : sproject) (x : stask),
+  s_leaf x = true ->
+  (forall t, t < length (sp_tasks p) -> (s_prio x < s_prio (stask_of p t))%Z) ->
+  (forall t d, t < length (sp_tasks p) -> In d (s_deps (stask_of p t)) -> sd_task d <> length (sp_tasks p)) ->
+  (forall t, t < length (sp_tasks p) -> ~ In (length (sp_tasks p)) (s_leaves (stask_of p t))) ->
+  forall u, u <> length (sp_tasks p) ->
+    sdates (sextend p x) (sschedule (sextend p x)) u = sdates p (sschedule p) u.
+Proof. exact subslot_lowest_priority_harmless. Qed.
+Print Assumptions C09_subslot.
